@@ -348,6 +348,61 @@ theorem insert_sample_eq [DecidableEq α] (null : α) (e o : DExt κ α) (sd : N
               by_cases hcond : (isTime && e.shp.nd == 5) = true <;>
                 simp [hcond, Except.map, toDict, KeyDict.set]
 
+theorem content_contains' (e : DExt κ α) (d : Cls) :
+    (contentOf' e).contains d.base = basePresent e.shp d := by
+  obtain ⟨shape, sd, ht, hvv, ents⟩ := e
+  cases d <;> cases ht <;> cases hvv <;> simp [contentOf', Cls.base, basePresent, DExt.shp] <;> decide
+
+/-- **the reclassification `_insert` applies to a key before inserting, as written in dcmmeta.py, is the model's `reclassifyK`** -/
+theorem reclassify_eq [DecidableEq α] (null : α) (e : DExt κ α)
+    (h3 : 3 ≤ e.shape.length) (h5 : e.shape.length ≤ 5) (hpos : ∀ x ∈ e.shape, 0 < x) (hsl : e.sliceDim.isSome = true)
+    (ks : KeyState α) (hks : ∀ c v, ks = some (c, v) → c ∈ validClasses e.shp ∧ mult e.shp c ≠ 0) (oc : Cls) :
+    Py.reclassify null e.shape (e.sliceDim.map fun d => e.shape.getD d 1) (toDict ks) (contentOf' e) oc =
+      errV ((reclassifyK null e.shp ks oc).map toDict) := by
+  have hvc := get_valid_classes_eq e none (by omega) h5
+  have hccf := fun dest => change_class_eq null e h3 h5 hpos ks hks dest (Or.inl hsl)
+  have hcc := content_contains' e
+  unfold Py.reclassify reclassifyK
+  rw [hvc]
+  simp only [ok_bind', hccf, hcc]
+  have hlc : (KeyDict.valuesAndClass (validClasses e.shp) (toDict ks)).map (·.1) = ks.map (·.1) := by
+    cases ks with
+    | none => simp [toDict, valuesAndClass_nil]
+    | some cv => obtain ⟨c, v⟩ := cv; simp [toDict, valuesAndClass_single _ c v (hks c v rfl).1]
+  simp only [hlc]
+  by_cases h1 : ks.map (·.1) = some oc
+  · have h1' : (ks.map (·.1) != some oc) = false := by simp [h1]
+    simp [h1, h1', errV, Except.map, pure, Except.pure]
+  · have h1' : (ks.map (·.1) != some oc) = true := by simpa using h1
+    simp only [h1, h1', if_true, if_false]
+    by_cases h2 : oc ∈ preserving (ks.map (·.1))
+    · have h2' : (preserving (ks.map (·.1))).contains oc = true := by simpa using h2
+      simp only [h2, h2', if_true]
+      cases hk : changeClassK null e.shp ks oc <;> simp [errV, Except.map, bind, Except.bind, pure, Except.pure]
+    · have h2' : (preserving (ks.map (·.1))).contains oc = false := by simpa using h2
+      simp only [h2, h2', if_false, Bool.false_eq_true]
+      cases ks with
+      | none =>
+        simp only [Option.map_none, Option.any_none, Bool.false_eq_true, if_false, Bool.not_false, if_true]
+        cases hf : (preserving none).find? (fun d => basePresent e.shp d && decide (d ∈ preserving (some oc))) with
+        | none =>
+          simp [hf, errV, Except.map, bind, Except.bind, throw, throwThe, MonadExceptOf.throw]
+        | some d =>
+          cases hk : changeClassK null e.shp none d <;> simp [hf, hk, errV, Except.map, bind, Except.bind, pure, Except.pure]
+      | some cv =>
+        obtain ⟨c, v⟩ := cv
+        simp only [Option.map_some, Option.any_some]
+        by_cases h3' : c ∈ preserving (some oc)
+        · have h3'' : (preserving (some oc)).contains c = true := by simpa using h3'
+          simp [h3', h3'', errV, Except.map, pure, Except.pure]
+        · have h3'' : (preserving (some oc)).contains c = false := by simpa using h3'
+          simp only [h3', h3'', decide_false, Bool.false_eq_true, if_false, Bool.not_false, if_true]
+          cases hf : (preserving (some c)).find? (fun d => basePresent e.shp d && decide (d ∈ preserving (some oc))) with
+          | none =>
+            simp [hf, errV, Except.map, bind, Except.bind, throw, throwThe, MonadExceptOf.throw]
+          | some d =>
+            cases hk : changeClassK null e.shp (some (c, v)) d <;> simp [hf, hk, errV, Except.map, bind, Except.bind, pure, Except.pure]
+
 /-! the translated methods compute (tests, not theorems) -/
 example : Py.change_class (0 : Nat) [2, 2, 2, 2] (some 2) [(tsamples, [7, 8])] gslices = .ok [(gslices, [7, 7, 8, 8])] := by rfl
 example : Py.insert_slice (0 : Nat) [2, 2, 2, 2] (some 2) [(gslices, [1, 2, 3, 4])] (some 2) ["global", "time"]
